@@ -44,7 +44,7 @@ def main():
             print("VIOLATION property=C06 replay=%s" % os.path.abspath(REPLAY))
             return 1
         return 0
-    n = 96 if TIER == "quick" else 640
+    n = 96 if TIER == "quick" else 2400
     outdir = os.path.join(ROOT, "out", "C06", "%s-%d" % (TIER, SEED))
     shutil.rmtree(outdir, ignore_errors=True)
     os.makedirs(outdir)
